@@ -47,6 +47,7 @@ type Deviations struct {
 	EpollEINTR   bool
 	AcceptEMFILE bool
 	CtlFail      bool // epoll_ctl ADD fails with ENOMEM
+	CtlFailFd    int  // if non-zero: only registrations of this descriptor may fail
 	SockoptFail  bool
 }
 
@@ -196,13 +197,23 @@ func Close(fd int) error {
 		l.BadCloses = append(l.BadCloses, fmt.Sprintf("close(%d): descriptor is not open (EBADF, or a number that now belongs to someone else)", fd))
 		return syscall.EBADF
 	}
+	if r.Owner == "harness" && r.Kind == "adversary" {
+		// netpoll is closing a number that has been given to somebody else in the meantime
+		l.BadCloses = append(l.BadCloses, fmt.Sprintf("close(%d): the number was closed before and now belongs to another owner (adversary descriptor destroyed)", fd))
+		r.Open = false
+		return rawClose(fd)
+	}
 	if r.Owner != "netpoll" {
 		l.BadCloses = append(l.BadCloses, fmt.Sprintf("close(%d): descriptor is owned by %s, not by netpoll", fd, r.Owner))
 		return nil
 	}
 	r.Open = false
 	r.Closes++
-	return rawClose(fd)
+	err := rawClose(fd)
+	if AfterClose != nil {
+		AfterClose(fd)
+	}
+	return err
 }
 
 //go:norace
@@ -520,7 +531,7 @@ func RawSyscall6(trap, a1, a2, a3, a4, a5, a6 uintptr) (r1, r2 uintptr, err sysc
 			evs = (*epollEvent)(unsafe.Pointer(a4)).events
 		}
 		ptf("epoll_ctl(%d,op=%d,fd=%d,ev=%#x)", a1, a2, a3, evs)
-		if led.Dev.CtlFail && int(a2) == syscall.EPOLL_CTL_ADD {
+		if led.Dev.CtlFail && int(a2) == syscall.EPOLL_CTL_ADD && (led.Dev.CtlFailFd == 0 || led.Dev.CtlFailFd == int(a3)) {
 			if vsched.Choose(2, "epoll_ctl:fail") == 1 {
 				led.Ctl = append(led.Ctl, CtlRec{Epfd: int(a1), Op: int(a2), Fd: int(a3), Events: evs, Err: syscall.ENOMEM, Step: vsched.Cur().Steps})
 				return ^uintptr(0), 0, syscall.ENOMEM
@@ -775,4 +786,42 @@ func HClosedPort() int {
 	fd, port := HListenTCP(1)
 	HClose(fd)
 	return port
+}
+
+// Register makes a descriptor that was created outside the shim (package net / os.File) known to the
+// ledger as owned by netpoll (it is expected to close it exactly once).
+//
+//go:norace
+func Register(fd int, kind string) {
+	if led != nil {
+		led.created(fd, kind, "netpoll")
+	}
+}
+
+// Fstat identity of a descriptor (device, inode), for the adversary check.
+//
+//go:norace
+func FdIdentity(fd int) (uint64, uint64, bool) {
+	var st syscall.Stat_t
+	if err := syscall.Fstat(fd, &st); err != nil {
+		return 0, 0, false
+	}
+	return uint64(st.Dev), st.Ino, true
+}
+
+// AfterClose lets a scenario run code right after netpoll closed a descriptor (adversary hook).
+var AfterClose func(fd int)
+
+// ClosedExternally records that a registered descriptor was closed by code the shim cannot see
+// (os.File.Close): the caller has verified that the number is no longer open.
+//
+//go:norace
+func ClosedExternally(fd int) {
+	if led == nil {
+		return
+	}
+	if r := led.find(fd); r != nil {
+		r.Open = false
+		r.Closes++
+	}
 }
